@@ -717,6 +717,21 @@ class NetCDF4(FileHandler):
         return path + dim
 
     @staticmethod
+    def _get_inherited_dimension_name(group, dim):
+        """Full name of a dimension that is defined in an ancestor group"""
+        ancestor = group.parent
+        while ancestor is not None:
+            if dim in ancestor.dimensions:
+                ancestor_path = ancestor.path.strip("/")
+                if ancestor_path:
+                    return ancestor_path + "/" + dim
+                return dim
+            ancestor = ancestor.parent
+
+        raise KeyError(
+            f"The dimension {dim} of the group {group.path} is not defined!")
+
+    @staticmethod
     def _load_group(ds, path, group, fields):
         if path is None:
             # The current group is the root group
@@ -738,6 +753,14 @@ class NetCDF4(FileHandler):
         try:
             for var_name, var in group.variables.items():
                 if fields is None or path + var_name in fields:
+                    # A variable may also use dimensions that are not defined
+                    # in this group but inherited from an ancestor group:
+                    for dim in var.dimensions:
+                        if dim not in dim_map:
+                            dim_map[dim] = \
+                                NetCDF4._get_inherited_dimension_name(
+                                    group, dim
+                                )
                     dims = [dim_map[dim] for dim in var.dimensions]
                     if len(dims) == 0 and var[:] is np.ma.masked:
                         ds[path + var_name] = dims, np.nan, dict(var.__dict__)
